@@ -195,6 +195,13 @@ fn scen(spec: RunSpec) -> ScenFut {
                             sim::probe("buffer-full");
                             rejected.lock().unwrap().extend(rs);
                         }
+                        Err(cardinalsin::Error::TooManyRetries) | Err(cardinalsin::Error::Conflict) => {
+                            // the flush that had to precede this write (schema change) lost the catalog's compare-and-swap
+                            // five times in a row against the other writers' flushes: the write is refused, which the
+                            // statement permits (its rows must then not be stored - checked below)
+                            sim::probe("write-refused-under-catalog-contention");
+                            rejected.lock().unwrap().extend(rs);
+                        }
                         Err(e) => {
                             sim::violation("C06/unexpected-error", format!("write failed in a fault-free run: {e}"));
                             rejected.lock().unwrap().extend(rs);
